@@ -65,6 +65,9 @@ pub struct Sc {
     /// copies with plausible names and WRONG rates, a note, an editor's swap file.
     #[serde(default)]
     pub junk_files: bool,
+    /// The cache directory's path is not valid UTF-8 (a Latin-1 home directory name).
+    #[serde(default)]
+    pub odd_cache_dir: bool,
     /// Set by minimisation: explore this single crash point only.
     pub only_state: Option<CrashPoint>,
     pub hash_seed: u64,
@@ -176,6 +179,7 @@ pub fn generate(seed: u64, tier: Tier) -> Sc {
         },
         only_state: None,
         junk_files: r.chance(1, 4),
+        odd_cache_dir: r.chance(1, 8),
         hash_seed: r.next_u64(),
         pre_crash_clock_ahead: if r.chance(1, 2) { *r.pick(&[3i64, 10, 25, 60]) } else { 0 },
     }
@@ -234,7 +238,7 @@ pub fn tail_dates(disk: &Disk) -> Vec<Date> {
         }
     }
     let mut out = vec![];
-    for (_name, data) in disk.list_files(CACHE_DIR) {
+    for (_name, data) in disk.list_files(cache_dir_key()) {
         let text = String::from_utf8_lossy(&data);
         let lines: Vec<&str> = text.lines().filter(|l| !l.trim().is_empty()).collect();
         for l in lines.iter().rev().take(3) {
@@ -534,6 +538,17 @@ impl Engine for C14 {
     }
 
     fn execute(&self, sc: &Sc, st: &mut Stats) -> ExecOut {
+        struct OddDirGuard;
+        impl Drop for OddDirGuard {
+            fn drop(&mut self) {
+                set_odd_cache_dir(false);
+            }
+        }
+        set_odd_cache_dir(sc.odd_cache_dir);
+        let _odd_dir_guard = OddDirGuard;
+        if sc.odd_cache_dir {
+            st.bump("probe.cache_directory_path_is_not_valid_utf8");
+        }
         let boc = Arc::new(BocData::new(&sc.cal, &sc.format, &[]));
         let mut reference = Reference::new(boc.clone());
         let mut violations: Vec<Violation> = vec![];
@@ -576,7 +591,7 @@ impl Engine for C14 {
                 CrashPoint::Prefix { k, cut: rp.range(1, (n as i64 - 1).max(1)) as usize }
             };
             let debris = cp.materialise(&before, &jp);
-            if debris.list_files(CACHE_DIR).iter().any(|(n, _)| n.ends_with(".tmp")) {
+            if debris.list_files(cache_dir_key()).iter().any(|(n, _)| n.ends_with(".tmp")) {
                 st.bump("probe.stale_temporary_file_from_an_earlier_crash");
             }
             with_world(|w| w.fs.disk = debris);
@@ -592,9 +607,9 @@ impl Engine for C14 {
             }
             with_world(|w| {
                 for name in [format!("rates-{}.csv.bak", y), format!("rates-{}.csv.old", y), format!("rates-{} (copy).csv", y), format!("Rates-{}.CSV", y), format!(".rates-{}.csv.swp", y)] {
-                    w.fs.disk.put_file(&format!("{}/{}", CACHE_DIR, name), wrong.as_bytes());
+                    w.fs.disk.put_file(&format!("{}/{}", cache_dir_key(), name), wrong.as_bytes());
                 }
-                w.fs.disk.put_file(&format!("{}/notes.txt", CACHE_DIR), b"remember to check 2021\n");
+                w.fs.disk.put_file(&format!("{}/notes.txt", cache_dir_key()), b"remember to check 2021\n");
             });
             st.bump("probe.cache_directory_also_holds_foreign_files_with_wrong_rates");
         }
@@ -766,7 +781,7 @@ impl Engine for C14 {
                             (Ok(_), _) => "uses another day's rate than a look-up without cache",
                             (Err(_), _) => "fails although a look-up without cache succeeds",
                         };
-                        let files = with_world(|w| w.fs.disk.list_files(CACHE_DIR));
+                        let files = with_world(|w| w.fs.disk.list_files(cache_dir_key()));
                         let v = Violation {
                             kind: "recovery_answer_differs".into(),
                             signature: sig.to_string(),
@@ -901,6 +916,11 @@ impl Engine for C14 {
             s.junk_files = false;
             c.push(s);
         }
+        if sc.odd_cache_dir {
+            let mut s = sc.clone();
+            s.odd_cache_dir = false;
+            c.push(s);
+        }
         if sc.second_crash_every > 0 {
             let mut s = sc.clone();
             s.second_crash_every = 0;
@@ -1021,6 +1041,7 @@ impl Engine for C14 {
             "fault.write_error_disk_full",
             "fault.clock_set_ahead_in_an_earlier_killed_run",
             "probe.cache_directory_also_holds_foreign_files_with_wrong_rates",
+            "probe.cache_directory_path_is_not_valid_utf8",
         ];
         let _ = tier;
         v
